@@ -4,6 +4,7 @@ import NaijaVerif.Driver.FloatOps
 import NaijaVerif.Model.Eval
 import NaijaVerif.Gen.PanicSites
 import NaijaVerif.Lemmas.BridgeOk
+import NaijaVerif.Lemmas.BridgeReach
 /-!
 Family `run` — the evaluator model driven by the REAL front end's annotated AST.
 
@@ -13,9 +14,18 @@ run <hex src> pol=<a|d> plan=<s1,s2,…|->;<f1,f2,…|-> | plan=none   ast=<anno
 ws <anything> ast=<annotated AST line>
       -> ws=1 | ws=0          (`Eval.WellScoped`, the decidable hypothesis of `Props/C04.lean`'s `c04_dynamic`)
 kept <hex src> pol=<a|d> plan=<…> ast=<annotated AST line>
-      -> kept=1 | kept=0      (`Bridge.keptBlock plan root`: the hypothesis `PlanKeepsCalls` of `Props/C06Accepted.lean`
-                               — outside removed statements and the bodies of removed functions no call is bound to a
-                               removed function — evaluated on the REAL plan and the real resolver's annotations)
+      -> kept=<1|0> reach=<1|0> num=<1|0>
+                              (evaluated on the REAL plan and the real resolver's annotations:
+                               `kept`  = `Bridge.keptBlock plan root`, the former hypothesis `PlanKeepsCalls` of
+                                         `Props/C06Accepted.lean` — EVERY kept function calls kept functions only;
+                                         too strong, reported as a statistic;
+                               `reach` = `Bridge.planReaches plan root` = `keptReach (reachK plan root) plan root`, the
+                                         hypothesis `PlanReach` of `c06_accepted` / `c06_source` / `c06_pipeline` with the
+                                         canonical K (closure of the call annotations from the top-level code): K is kept
+                                         by the plan and, outside removed statements, the top-level code and the bodies of
+                                         the definitions in K call functions of K only;
+                               `num`   = `Bridge.numBlock root`: every statement carries a StmtId, every definition a
+                                         FunctionId — the first condition of `FactsCoverCalls` (`c06_pipeline_reach`))
 rej <hex src>                 -> rejected
 fmt <bits: 16 hex digits>     -> <hex of the Display text>          (validation of the driver's float routines)
 parse <hex text>              -> <bits> | nan | err
@@ -121,7 +131,9 @@ def answer (line : String) : String :=
       match (words head).filter (·.startsWith "plan=") with
       | [plan] =>
         match parsePlan ((plan.drop 5).toString), AstIO.readBlock ast with
-        | some pl, some blk => if keptOf pl blk then "kept=1" else "kept=0"
+        | some pl, some blk =>
+          let b := fun (x : Bool) => if x then "1" else "0"
+          s!"kept={b (keptOf pl blk)} reach={b (NaijaVerif.Bridge.planReaches pl blk)} num={b (NaijaVerif.Bridge.numBlock blk)}"
         | _, _ => "bad-request"
       | _ => "bad-request"
     else if head.startsWith "ws " then
